@@ -2,8 +2,49 @@
 import importlib
 import pkgutil
 
+from ..report import RULES
 from .meta import PROPERTY_META  # noqa: F401
 
 for _m in sorted(m.name for m in pkgutil.iter_modules(__path__)):
     if _m.startswith("c") and _m[1:3].isdigit():
         importlib.import_module(f"{__name__}.{_m}")
+
+# A rule decides a structural clause of a *mechanism*; several properties rest on the same mechanism (their anchors overlap).
+# The rule is therefore also run under every property whose statement depends on that mechanism, under its own id.
+# (Rules that currently have known findings are not shared: known findings are keyed per property.)
+SHARED = {
+    "C01": [("C16", "R16a"), ("C16", "R16b"), ("C06", "R06b"), ("C06", "R06d"), ("C15", "R15a"), ("C05", "R05a"), ("C05", "R05c"), ("C04", "R04d")],
+    "C02": [("C06", "R06d"), ("C07", "R07f")],
+    "C03": [("C16", "R16c"), ("C01", "R01c"), ("C05", "R05a"), ("C05", "R05b"), ("C16", "R16a")],
+    "C04": [("C02", "R02d"), ("C11", "R11c")],
+    "C06": [("C16", "R16a"), ("C16", "R16e"), ("C16", "R16c")],
+    "C12": [("C11", "R11a"), ("C11", "R11b"), ("C11", "R11c"), ("C11", "R11e"), ("C13", "R13a"), ("C13", "R13b"), ("C07", "R07e"), ("C07", "R07a")],
+    "C13": [("C16", "R16c"), ("C16", "R16d")],
+    "C14": [("C07", "R07e")],
+    "C19": [("C16", "R16e")],
+    "C20": [("C05", "R05d"), ("C12", "R12d")],
+}
+
+
+def _share():
+    for prop, items in SHARED.items():
+        have = {f.rule_id for f in RULES.rules.get(prop, [])}
+        for src, rid in items:
+            if rid in have:
+                continue
+            fns = [f for f in RULES.rules.get(src, []) if f.rule_id == rid]
+            if not fns:
+                raise RuntimeError(f"shared rule {src}/{rid} not found")
+            f0 = fns[0]
+
+            def wrapper(model, rr, _f=f0):
+                return _f(model, rr)
+            wrapper.rule_id = rid
+            wrapper.title = f0.title + f" [shared from {src}]"
+            wrapper.floor = f0.floor
+            wrapper.tier = f0.tier
+            RULES.rules.setdefault(prop, []).append(wrapper)
+            have.add(rid)
+
+
+_share()
